@@ -42,7 +42,8 @@ def check(topo, eqpt, key, junction):
     for f in before.nodes():
         if isinstance(f, Fiber):
             total_len[f.uid.split('_(')[0]] = (f.params.length, float(f.loss), f.loss_coef_func(FPROBE) * f.params.length,
-                                               f.chromatic_dispersion(FPROBE))
+                                               f.chromatic_dispersion(FPROBE),
+                                               sorted((round(l['position'], 6), l['loss']) for l in f.params.lumped_losses))
     net, eqpt = design(topo, deepcopy(eqpt))
     prob = []
     span = eqpt['Span']['default']
@@ -53,6 +54,7 @@ def check(topo, eqpt, key, junction):
         prob.append('ROADM reachability changed')
     parts = {}
     table = {}
+    lumped = {}
     for n in net.nodes():
         if isinstance(n, (Roadm, Transceiver)):
             continue
@@ -75,6 +77,9 @@ def check(topo, eqpt, key, junction):
             base = n.uid.split('_(')[0]
             parts.setdefault(base, []).append(n.params.length)
             table.setdefault(base, []).append((n.loss_coef_func(FPROBE) * n.params.length, n.chromatic_dispersion(FPROBE)))
+            k_span = int(n.uid.split('_(')[1].split('/')[0]) - 1 if '_(' in n.uid else 0
+            lumped.setdefault(base, []).extend((round(k_span * n.params.length * 1e-3 + l['position'], 6), l['loss'])
+                                               for l in n.params.lumped_losses)
             if isinstance(nxt, Fiber):
                 prob.append(f'{n.uid}: fibre-to-fibre junction left without amplifier')
             if isinstance(nxt, Roadm) and not isinstance(n, RamanFiber) and False:
@@ -104,6 +109,9 @@ def check(topo, eqpt, key, junction):
             L = total_len[base][0]
             if abs(sum(lens) - L) > 1e-6 * max(1, L) or max(lens) - min(lens) > 1e-6 * max(1, L):
                 prob.append(f'{base}: split spans {lens} do not add up equally to {L}')
+            # ... each lumped loss of the fibre is found once, at its own distance from the start of the fibre
+            if sorted(lumped.get(base, [])) != total_len[base][4]:
+                prob.append(f'{base}: lumped losses (km from the start, dB) {sorted(lumped.get(base, []))} after the split, the fibre had {total_len[base][4]}')
             # ... and to the original loss and accumulated dispersion, at every probed frequency (per-frequency tables included)
             for k, what in ((0, 'loss'), (1, 'dispersion')):
                 tot = sum(t[k] for t in table[base])
@@ -180,6 +188,18 @@ for name in (['line2'] if a.tier == 'quick' else ['line2', 'ring3']):
                 check(topo, equipment(), key, 'none')
             except Exception as e:
                 wit.append({'key': key, 'problems': [f'{type(e).__name__}: {e}']})
+# long fibres with lumped losses: each loss stays at its place
+for sp, lump in (([200], [(30, 1.0)]), ([200], [(130, 1.0)]), ([200], [(30, 1.0), (130, 0.5), (199, 0.25)]), ([40, 170], [(20, 0.75)])):
+    cases += 1
+    key = f'line2:{sp}:lumped losses {lump}'
+    try:
+        topo = mesh(['A', 'B'], [('A', 'B')], spans={('A', 'B'): sp})
+        for e in topo['elements']:
+            if e['type'] == 'Fiber' and e['params']['length'] > lump[-1][0]:
+                e['params']['lumped_losses'] = [{'position': x, 'loss': y} for x, y in lump]
+        check(topo, equipment(), key, 'none')
+    except Exception as e:
+        wit.append({'key': key, 'problems': [f'{type(e).__name__}: {e}'[:300]]})
 # a Raman span whose connector losses are left to the library defaults (its booster carries a delta_p: see known finding F24)
 for con_in, con_out in ((None, 0.5), (0.35, 0.5)):
     cases += 1
